@@ -69,6 +69,10 @@ type Exec struct {
 	Results     *EntryResult
 	baseHeap    map[int]*HObj
 	baseNext    int
+	inInit      bool
+	LabelPrefixes []string
+	baseGhost   map[string]Value
+	baseOnce    map[string]bool
 	QuerySolver time.Duration
 	Trace       bool
 	final       []*Solver
@@ -637,6 +641,21 @@ func (ex *Exec) callValue(st *State, fn FuncV, args []Value, retTo ssa.Value, si
 			name = f.String()
 			fn = FuncV{Fn: sf}
 		}
+	}
+	if strings.HasPrefix(name, "unique.Make[") {
+		// interning: equal concrete values share one pointer
+		h, ok := hashKey(args[0])
+		if !ok {
+			unsupported("unique.Make of symbolic value")
+		}
+		k := "unique:" + name + ":" + h
+		p, seen := st.ghost[k]
+		if !seen {
+			p = Ptr{Obj: st.alloc(args[0], nil)}
+			st.ghost[k] = p
+		}
+		finish(StructV{p})
+		return
 	}
 	if isPkgInit(f) {
 		finish(nil) // package initialisers are run up front by RunInits
